@@ -228,6 +228,67 @@ def cli_logging(v):
     return {('verbose' if k else 'default'): {'debug_records_shown': r[0], 'info_records_shown': r[1], 'effective_level': r[2]} for k, r in results.items()}
 
 
+def cli_odd_secrets(v):
+    """Secrets that LOOK like another notation (a hexadecimal / binary / octal literal with a slip in it, a float, a base64 blob, a YAML tag): pyikev2.py is
+    started without --verbose on a file that holds such a PSK.  Whether the loader takes the secret as text or rejects the file is C19's business - what is
+    written to the log (the default level, on stderr) in either case must not contain the secret, in any of the tracked forms."""
+    import io, logging, os, runpy, shutil, signal, sys, tempfile
+    import yaml
+    import ikesacontroller
+    import xfrm
+    odd = ['0xC0FFEE-and-b1scuits', '0Xdeadbeefg', '0x', '0b1011-secret2', '0o777-secret8', '1e400-secret', 'c2VjcmV0LWJhc2U2NA=', '!!binary not-base64', '{0}-{psk}-%(psk)s', '0x 12 34']
+    root = logging.getLogger()
+    saved = (list(root.handlers), root.level, sys.argv, sys.stderr, ikesacontroller.IkeSaController.main_loop, xfrm.Xfrm.__dict__.get('send_recv'), signal.getsignal(signal.SIGINT),
+             getattr(logging, 'indent', None))
+    tmp = tempfile.mkdtemp(prefix='verif-cli-')
+    out = {'accepted': 0, 'rejected': 0}
+    try:
+        for k, secret in enumerate(odd):
+            for where in ('my_auth', 'peer_auth'):
+                c = wd.connection_dict('A', 'B')
+                c[where]['psk'] = secret
+                path = os.path.join(tmp, f'conf{k}{where}.yaml')
+                yaml.safe_dump({'c': c}, open(path, 'w'))
+                for h in list(root.handlers):
+                    root.removeHandler(h)
+                root.setLevel(logging.WARNING)
+                stream = io.StringIO()
+                sys.stderr = stream
+                sys.argv = ['pyikev2.py', '-c', path, '-i', wd.addr_of('A')]
+                ikesacontroller.IkeSaController.main_loop = lambda self: None
+                xfrm.Xfrm.send_recv = classmethod(lambda cls, *a, **kw: None)
+                try:
+                    runpy.run_path(os.path.join(common.REPO, 'pyikev2.py'), run_name='__main__')
+                    out['accepted'] += 1
+                except SystemExit:
+                    out['rejected'] += 1
+                except Exception as ex:                      # (what the interpreter would print for an uncaught exception)
+                    import traceback
+                    stream.write(''.join(traceback.format_exception(type(ex), ex, ex.__traceback__)))
+                text = stream.getvalue()
+                hit = next((f for f in forms(secret.encode()) if f and f in text), None) if len(secret) >= 4 else None
+                if hit is not None:
+                    line = next(l for l in text.splitlines() if hit in l)
+                    v.violation(f'pyikev2.py (default log level) started on a configuration whose {where} PSK is {secret!r}: the log contains the secret: {line[:160]!r}',
+                                {'secret_shape': secret, 'where': where}, signature={'component': 'cli:odd-secret', 'where': where})
+    finally:
+        for h in list(root.handlers):
+            root.removeHandler(h)
+        for h in saved[0]:
+            root.addHandler(h)
+        root.setLevel(saved[1])
+        sys.argv, sys.stderr = saved[2], saved[3]
+        ikesacontroller.IkeSaController.main_loop = saved[4]
+        if saved[5] is not None:
+            xfrm.Xfrm.send_recv = saved[5]
+        elif 'send_recv' in xfrm.Xfrm.__dict__:
+            del xfrm.Xfrm.send_recv
+        signal.signal(signal.SIGINT, saved[6])
+        logging.indent = saved[7]
+        shutil.rmtree(tmp, ignore_errors=True)
+    return out
+
+
 def log_sites():
     """Every statement of the implementation that logs at INFO level or above: (file, first line, last line, level)."""
     import ast
@@ -298,6 +359,7 @@ def run(tier, replay=None):
     if len(dbg_hits) < 5:
         raise common.MachineryError(f'positive control failed: only {len(dbg_hits)} of {ns} secrets visible in a verbose (DEBUG) run - the detector does not see the material')
     v.coverage['command_line_log_level'] = cli_logging(v)
+    v.coverage['command_line_odd_secrets'] = cli_odd_secrets(v)
     # which of the INFO+ logging statements of the implementation did these histories execute?  (a monitor only sees what runs)
     sites = log_sites()
     hit = [(f, a, b, lvl) for f, a, b, lvl in sites if any(ff == f and a <= ln <= b for ff, ln in wd.LOG_SITES)]
